@@ -185,9 +185,9 @@ def tileIdentity (n R : ℕ) : Mat K :=
     (`R = ⌈(p+k)/n⌉` periods, all `R` images of the knot inserted, coefficients repeated, first `n+1`
     rows kept); otherwise `insertKnotDirect`.  The constructor call `BSplineBasis(p, knots, periodic)`
     for the cover is modelled as accepting its argument (it does for every valid basis and
-    non-negative tolerance).  The source-derived theorem `PyBasis_insert_knot_eq` covers everything
-    outside the cover branch; the cover branch is tied to the code by the C04 correspondence run
-    (every `(p,k)`, all sizes `n = p-1-k … p+k-1`). -/
+    non-negative tolerance).  The source-derived theorems `PyBasis_insert_knot_eq` (direct branch) and
+    `PyBasis_insert_knot_eq_cover` (cover branch) tie both branches to the code; the C04
+    correspondence run covers every `(p,k)` and all sizes `n = p-1-k … p+k-1` as well. -/
 def insertKnot [FloorRing K] (b : Basis K) (x0 : K) : PyM (Basis K × Mat K) :=
   match b.insertWrap x0 with
   | .error e => .error e
